@@ -19,7 +19,17 @@ Tie:
        entries of the valid sources and (secured) trust-store snapshots equal to the control run;
  (v)   fault injection: stdout / stderr that raise (BrokenPipeError, OSError, ValueError) while a bad frame is reported;
        the loops on their own with a callback that raises (Router.process_basic_header without the router's catch-all);
- (vi)  MAC filter incl. own MAC -> own MAC.
+ (vi)  MAC filter incl. own MAC -> own MAC;
+ (vii) histories (round 5): [discarded frame, well-formed frame that is delivered AND FORWARDED] against the well-formed
+       frame alone, per configuration (unsecured; verify service + security disabled = mixed deployment; security enabled),
+       comparing outcome, deliveries, the GN-PDUs put on the air (contention timers are virtual and expire at the end
+       of the frame that armed them) and the location table; mixed secured/unsecured streams through the raw loop;
+       Location-Service histories (requests buffered, replies with fresh / boundary / stale / future position vectors,
+       duplicated, truncated, unasked); C-V2X: the real receive_process + callback loop on radio frames incl. lengths 0/1/2;
+       every loop runs on a thread of its own under a WATCHDOG: a loop that blocks is a violation like a loop that died;
+ (viii) Generated/RouterRx.lean (gen_router.py) and Generated/Locks.lean (gen_locks.py) are regenerated for C04 too:
+       reset of the receive context in a `finally`, no lock re-taken while held; Generated/Except.lean: the C-V2X stop test
+       is an identity test against None, the raw loop has no frame-dependent exit.
 """
 from __future__ import annotations
 
@@ -63,11 +73,20 @@ TRUSTED = [
     "application callbacks registered by the user are assumed to raise only Exception subclasses",
     "the logging module does not raise when its stream fails (CPython: Handler.handleError swallows OSError; exercised "
     "here with stdout+stderr raising BrokenPipeError/OSError, and stdout raising ValueError)",
+    "gen_router.py / gen_locks.py (other properties' ast passes, read-only here): RouterRx.ctxResetInFinally, Locks.edges "
+    "(transitive over the call graph gen_locks resolves; calls it cannot resolve are not edges)",
+    "the wire-level receive model of C06 (RouterSec.lean: receive context, _forward_pdu) is reused for "
+    "later_frames_on_the_wire_unaffected_by_discarded_frame; its correspondence is C06's, its conclusion is checked here on "
+    "the real stack by the history oracle (vii)",
     "the composite station model (RecvStation.lean) glues the C03 gate and the C06 router model, which have their own "
     "correspondence checks; its decoders are parameters; the conclusions of its theorems are checked on the real stack by "
     "the effect oracle (iii)/(iv), the glue itself is not run against the code",
 ]
 ASSUMPTIONS = [
+    "contention-based-forwarding timers are virtual: the copy a forwarder buffered is sent at the end of the frame that "
+    "armed the timer (attribution of forwarded PDUs to frames); Location Service retransmission timers never fire",
+    "watchdog: a receive thread that makes no progress for 6 s of wall time while parked at one source line is blocked "
+    "(reported as a violation with the line); below that a slow frame is not judged",
     "a frame counts as 'handled' once its handler reaches duplicate_address_detection (all headers decoded)",
     "a frame counts as DISCARDED when processing it raised or returned without any GN-DATA.indication and without any "
     "transmission; a frame that produced an indication is a well-formed GN packet whatever its payload (C04-KF1)",
@@ -1650,6 +1669,20 @@ def check_mac(ctx, clock):
                             f"mac {OWN_MAC.hex()} {dst.hex()} {src.hex()}"))
 
 
+def check_cv2x_boundaries(ctx, clock):
+    """C-V2X framing boundaries, deterministic: a radio frame of 0, 1 (family id alone: an EMPTY GN packet) or 2 octets
+    between two valid frames; the frame behind it must be delivered and the callback thread must still be serving"""
+    with rs.quiet():
+        goods = st_mod.emit_cam(st_mod.Station(5, clock, with_ldm=False), clock) \
+            + st_mod.emit_cam(st_mod.Station(7, clock, with_ldm=False), clock)
+    for b in CV2X_BOUNDARY:
+        seq = [("v", b"\x03" + goods[0]), ("b", b), ("v", b"\x03" + goods[1])]
+        ctx.evals(3)
+        ctx.cover(f"cv2x_radio_frame_len_{len(b)}")
+        ctx.nontrivial(("cv2x-boundary", b.hex()))
+        cv2x_stream_case(ctx, clock, seq)
+
+
 def check_no_raise(ctx, clock, frames, world=None):
     stn = world.receiver() if world is not None else make_station(clock, ("ca", "den", "vru"), True)
     for f in frames:
@@ -1700,7 +1733,9 @@ def run(ctx):
                          "up to the MTU; each classified by the real router (4 security configurations) and the Lean model; "
                          "pair runs [mutant, original]; streams of valid traffic with bad frames at random positions through "
                          "the real RawLinkLayer.receive / C-V2X loop (5 facility wirings unsecured, 3 with security enabled); "
-                         "stdout fault injection. distinct_nontrivial = distinct (configuration, outcome, length bucket, "
+                         "stdout fault injection; histories [discarded frame, forwarded frame] per configuration, mixed "
+                         "secured/unsecured loops, Location-Service histories (reply PV age at the itsGnLifetimeLocTE "
+                         "boundaries), C-V2X radio frames of 0/1/2 octets, all loops under a watchdog. distinct_nontrivial = distinct (configuration, outcome, length bucket, "
                          "HT/HST) classes, distinct secured-mutant effects, pairs, streams and fault cases")
     check_generated_facts(ctx)
     elog = ExcLog(ctx)
@@ -1723,6 +1758,7 @@ def run(ctx):
         sec_valid = world.valid_stream()
         sec_mut = timed(ctx, "secured_mutants", secured_mutants, ctx, world, sec_valid)
         sec_frames = dedup([f for _, f in sec_valid] + [f for _, f in sec_mut])
+        timed(ctx, "cv2x_boundaries", check_cv2x_boundaries, ctx, clock)
         timed(ctx, "stdout_faults", check_stdout_faults, ctx, clock)
         timed(ctx, "loop_guard", check_loop_guard, ctx, clock)
         timed(ctx, "mac", check_mac, ctx, clock)
@@ -1752,6 +1788,7 @@ def search(ctx):
         ctx.model_ok = False
         try:
             elog = ExcLog(ctx)
+            check_cv2x_boundaries(ctx, clock)
             check_stdout_faults(ctx, clock)
             check_loop_guard(ctx, clock)
             if ctx.violations:
